@@ -363,6 +363,29 @@ func runC19(rc *RunCtx) {
 			}
 		})
 	}
+	if rc.Chance(0.5) {
+		// two provers of one file are each under an open report form at export time
+		qStorage = append(qStorage, func() {
+			for _, f := range files {
+				if len(proversOf[f]) < 2 {
+					continue
+				}
+				made := 0
+				for _, p := range proversOf[f] {
+					u := rc.Intn(nUser)
+					r := w.tx(u, "storage.RequestReportForm", &storagetypes.MsgRequestReportForm{Creator: w.bech(u), Prover: w.bech(p), Merkle: f.F.Root(), Owner: f.OwnerAddr, Start: f.Start})
+					var resp storagetypes.MsgRequestReportFormResponse
+					if r.OK() && r.MsgResponse(0, &resp) == nil && resp.Success {
+						made++
+					}
+					if made == 2 {
+						rc.Count("two_report_forms_on_one_file", 1)
+						return
+					}
+				}
+			}
+		})
+	}
 	if minPass >= 2 && rc.Chance(0.6) {
 		// one attestation short of the quorum: the form stays, with a completed entry inside
 		qStorage = append(qStorage, func() {
